@@ -379,6 +379,17 @@ func (n *TreeNodeInstance) closeDispatch() error {
 	return nil
 }
 
+// stopDispatch makes the dispatch routine of an instance that was never
+// registered return.
+func (n *TreeNodeInstance) stopDispatch() {
+	n.msgDispatchQueueMutex.Lock()
+	defer n.msgDispatchQueueMutex.Unlock()
+	if !n.closing {
+		n.closing = true
+		close(n.msgDispatchQueueWait)
+	}
+}
+
 // ProtocolName will return the string representing that protocol
 func (n *TreeNodeInstance) ProtocolName() string {
 	return n.overlay.server.protocols.ProtocolIDToName(n.token.ProtoID)
